@@ -273,7 +273,8 @@ func vrtSSO(pf vrtSSOProfile) {
 
 	if panicked {
 		vrtOutcome("panic")
-		if vrtProp("C09") || vrtProp("C10") {
+		// a handler that panics ends in neither of C08's two outcomes (net/http drops the connection)
+		if vrtProp("C09") || vrtProp("C10") || vrtProp("C08") {
 			vrtPanicked(vrtPropID() + ".no-panic")
 		}
 		return
